@@ -51,8 +51,9 @@ class C08(Cfg):
     level_text = ("Theorems (Lean 4, any sequence of handshake / requests of every kind with arbitrary identifiers / clock / room-definition changes / data changes, any length): "
                   "every data-bearing request kind is guarded by allowed_room.contains(room) with the database read inside the guarded branch on the guarded room, RoomList by key-proven-and-ready (decide on the regenerated table); "
                   "before authentication the allowed table is empty and every request gets silence, a refusal or the identity proof; every data answer names a room of the allowed table and contains only rows of that room (row filters of node.rs/edge.rs/daily_log.rs modelled); "
-                  "every allowed room was admitted for the proven key at a time t<=now at which the key was a valid member (room list) or was named in a user list (definition-change event). "
-                  "The full statement (member NOW) is proved for a serving side that re-checks membership and is FALSE of the code: decide-checked witnesses for a former member on a live connection and for a disabled-only user admitted by has_user, both replayed on the real code. "
+                  "every allowed room was admitted for the proven key at a time t<=now at which the key was a valid member of the room according to the definition then in force. "
+                  "The full statement (member NOW) is proved for a serving side that re-checks membership and is FALSE of the code: decide-checked witness for a former member on a live connection, replayed on the real code (known finding); "
+                  "the second defect found (a disabled-only user admitted through has_user on a definition change) was fixed in /repo (81b6434) and is kept as a regression witness and corpus case. "
                   "Tie: the real InboundQueryService::start loop (process_inbound + add_allowed_room) and the real process_local_event fed with the instance's real RoomModified events, on a real database with 3-4 rooms, rows, references, deletions and logs; "
                   "requester in 6 membership states x 7 positions relative to authentication / room list / definition changes x every request kind x own/foreign/mixed/unknown identifiers (exhaustive product) + random sequences; every Answer decoded with bincode and compared with the model; independent oracle on the decoded answers.")
     level_note = ("Trusted: Lean kernel (+propext, Classical.choice, Quot.sound), translator T1 (regex level), the hand-written model of the row filters and of rooms_for_peer/has_user (shared Room model), the correspondence harness. "
@@ -81,7 +82,7 @@ class C08(Cfg):
     def streams(self, tier, seed, work, dv):
         p = os.path.join(work, "product.ops")
         lib.sh([dv, "enum08", "--out", p], check=True)
-        n = 60 if tier == "quick" else 1500
+        n = 60 if tier == "quick" else 1200
         q = os.path.join(work, "random.ops")
         lib.sh([dv, "gen08", "--seed", str(seed), "--n", str(n), "--out", q], check=True)
         return [("product membership(6) x position(7) x room(4) x request kinds/identifiers", p, True),
